@@ -486,6 +486,29 @@ def r17b(ctx):
               '`"phot?s/private/**"`, `"{photos,pictures}/private/**"` and `-i --exclude "photos/PRIVATE/**"` exclude nothing and `--path "*/private/*"` selects nothing, because the files are matched as '
               '<T>/disk/private/.. only; the selector does not know that they are also <cwd>/photos/private/.. - or it knows it only for the input paths that are ARGUMENTS relative to the working '
               'directory (GroupConfig.paths), not for --stdin lines and not under --base-dir, and takes a symbolic link to a FILE for an alias of its target')
+    # an alias may be shortened by what the two forms have in common at the end (many files listed below one linked directory = one alias), but never
+    # past a component of the given path that is a symbolic link itself: `home/Documents -> ../data/Documents` does not make `home` a name of `data`
+    if setter is not None:
+        sbodies = [setter] + [lib.body(cp) for cp in lib.closures_of(setter.path)]
+        pops = [(x, c) for x in sbodies for c in x.calls(r'PathBuf::pop$|path::Path::parent$')]
+        if pops:
+            linktest = [(x, c) for x in sbodies for c in x.calls(r'symlink_metadata$|FileType::is_symlink$|^std::fs::read_link$|Path::is_symlink$')]
+            guarded = bool(linktest)
+            for x, c in pops:
+                ok_ = False
+                for d in x.dominators()[c.bb]:
+                    t_ = x.blocks[d]['term']
+                    if t_['k'] == 'switch':
+                        sl_ = backslice(x, [t_['op']])
+                        if sl_.has_call(r'symlink_metadata$|FileType::is_symlink$|Path::is_symlink$|^std::fs::read_link$') or \
+                                any(lib.closure_of_type(x.local_ty(op_local(a))) and lib.body(lib.closure_of_type(x.local_ty(op_local(a)))).calls(r'is_symlink$')
+                                    for k in sl_.calls for a in k.args if op_local(a) is not None and 'closure' in x.local_ty(op_local(a))):
+                            ok_ = True
+                guarded = guarded and ok_
+            ctx.check(guarded, rule, setter.path + '|alias-stops-at-the-link', pops[0][1].where(), 'the common tail of the two forms is cut off only while the given path is not a symbolic link itself',
+                      'the alias of an input path is shortened by every trailing component that the path as given and the resolved path have in common: a link with the name of its target '
+                      '(`home/Documents -> ../data/Documents`, the usual kind) makes the PARENT directories aliases of each other, and every file below `data` is also matched under a path below '
+                      '`home` that it does not have: `group Documents ../data --exclude "tmp/**"` (in home) drops data/tmp/*, `remove --path "tmp/*"` removes data/tmp/d')
     if told:
         ctx.check(early, rule, run.path + '|aliases-known-before-the-first-match', told[0][1].where(), 'all input paths are registered before the first visit is spawned',
                   'an input path is registered in the same loop that spawns the visits: the files of an earlier input path may be matched before a later one (a link to the same directory) gives them '
@@ -1193,6 +1216,18 @@ def r5(ctx):
                       'a pattern counts as absolute when it can match a path that begins with many separators, whatever kind of pattern it is: that is also true of the relative GLOBS whose first '
                       'component may be empty and that go on with `**` - `*/**`, `*/**/*.jpg`, `?(sub)/**` - they are matched against the whole absolute path, whose first component is empty: '
                       '`--path "*/**"` selects everything, `--exclude "*/**"` excludes everything and `remove --path "*/**"` deletes files outside the working directory')
+        # ... and per ALTERNATIVE: `{**/*.jpg,raw/*}`, `@(/abs/x|rel/y)`, `a/.*|/b/.*` are choices between patterns of their own, which may be of different
+        # kinds; the first one must not decide for all (the others would be anchored, or left unanchored, wrongly and match nothing - silently)
+        ab = lib.body(sel + 'abs_pattern')
+        if ab is not None:
+            abb = [ab] + [lib.body(cp) for cp in lib.closures_of(ab.path)]
+            splits = [c for x in abb for c in x.calls(r'^pattern::Pattern::\w+$') if re.search(r'Vec<pattern::Pattern>', c.dty or '')]
+            joins = [c for x in abb for c in x.calls(r'pattern::Pattern::or$')] or [c for x in abb for c in x.calls(r'Iterator::reduce$|Iterator::fold$')]
+            each = [c for x in abb for c in x.calls(r'PathSelector::(abs_pattern|anchored_pattern)$') if x.path != ab.path]
+            ctx.check(bool(splits) and bool(joins) and bool(each), rule, ab.path + '|decided-per-alternative', (splits[0].where() if splits else ab.where()),
+                      'a pattern that is a choice between alternatives is split, every alternative is anchored on its own, and the results are or-ed',
+                      'a pattern that is an alternation is classified as absolute or relative by its FIRST alternative and anchored (or not) as a whole: `--path "{**/*.jpg,raw/*}"` selects only the '
+                      'jpg files (`raw/*` can never match) while `{raw/*,**/*.jpg}` selects both kinds; `--exclude "{**/*.jpg,cache/**}"` does not exclude cache/** - the files end up in the report')
         if lit:
             # the literal is made of exactly the text the paths are matched as (to_string_lossy): no character substitution on the way
             lsl = backslice(ap, [lit[0].args[0]])
@@ -1276,7 +1311,10 @@ def r67(ctx):
     ctx.check(ok, rule, b.path + '|resolve-condition', rl[0].where(), 'the link is resolved iff follow_links || report_links  [%s]' % why, 'link resolution condition differs: %s' % why)
     # visit_file (report the link) requires report_links; visit_path (follow) requires follow_links && (!one_fs || same_fs)
     def necessary(target, cond, what, key):
-        tt = truth_table(b, atoms, target_bb=target.bb, field_owner='Walk')
+        # (each arm may ask same_fs on its own: the one on the way to this target)
+        mine = [c for c in sf if target.bb in b.reachable(c.bb)]
+        atoms_ = dict(atoms, same_fs=(mine[-1].bb if mine else sf[0].bb))
+        tt = truth_table(b, atoms_, target_bb=target.bb, field_owner='Walk')
         if tt is None:
             ctx.violation(rule, key, target.where(), 'cannot fold the guard of %s' % what)
             return
@@ -1300,6 +1338,15 @@ def r67(ctx):
                 raise TypeError(k)
             return v
     necessary(vf[0], lambda a: A(a)['report_links'], 'reporting the link itself (visit_file)', b.path + '|report-needs-report_links')
+    # a reported link carries the identity, the length and the DATA of its target: under --one-fs a link that leaves the file system of its root is
+    # not reported either (the sibling arm, following, refuses it)
+    vf_sf = [c for c in sf if vf[0].bb in b.reachable(c.bb)]
+    if vf_sf:
+        necessary(vf[0], lambda a: (not A(a)['one_fs']) or A(a)['same_fs'], 'reporting a link whose target is on another file system', b.path + '|reported-link-stays-on-the-file-system')
+    else:
+        ctx.violation(rule, b.path + '|reported-link-stays-on-the-file-system', vf[0].where(),
+                      'the arm that reports a link to a file itself (-S) does not ask same_fs, the arm that follows links does: `group -S --one-fs d` matches d/a with d/l -> /dev/shm/b, i.e. with data '
+                      'stored on another file system, while `group -L --one-fs d` does not follow that link')
     necessary(vp[0], lambda a: A(a)['follow_links'] and ((not A(a)['one_fs']) or A(a)['same_fs']), 'following the link (visit_path)', b.path + '|follow-needs-follow_links')
     # the followed path is the resolved target, the reported path is the link itself; level is passed on unchanged (C09.R1)
     tsl = backslice(b, [vp[0].args[1]])
@@ -1307,4 +1354,4 @@ def r67(ctx):
     lsl = backslice(b, [vf[0].args[1]])
     ctx.check(2 in lsl.params and rl[0] not in lsl.calls, rule, b.path + '|reports-link', vf[0].where(), 'the reported path is the link itself', 'the reported path is not the link')
     # same_fs is asked about the target
-    ctx.check(rl[0] in backslice(b, [sf[0].args[1]]).calls, rule, b.path + '|same_fs-target', sf[0].where(), 'one_fs is decided on the link target', 'one_fs is not decided on the link target')
+    ctx.check(all(rl[0] in backslice(b, [c.args[1]]).calls for c in sf), rule, b.path + '|same_fs-target', sf[0].where(), 'one_fs is decided on the link target', 'one_fs is not decided on the link target')
